@@ -159,13 +159,24 @@ CHECKS = {
         technique="bounded exhaustive enumeration of argument vectors and environment lists through the real Windows sources (compiled on Linux against stub Win32 functions, ASan/UBSan), round-trip checked with an independent implementation of the documented splitting rules",
         text="process.windows.c and utf.windows.c are compiled unchanged with -D_WIN32 against /verif/winstub/windows.h; the real process_start() runs and a "
              "recording CreateProcessW captures the command line and the environment block. Every vector of 1 argument of length <=6, 2 arguments <=3, 3 "
-             "arguments <=2 (thorough: 8/4/3; 78 M vectors) over {a, space, tab, newline, vertical tab, double quote, backslash} including empty strings, for "
+             "arguments <=2 (thorough: 8/4/3; 157 M vectors) over {a, space, tab, newline, vertical tab, double quote, backslash} including empty strings, for "
              "argv[0] with and without a space, plus 2-/3-/4-byte UTF-8 characters next to quotes and backslashes, must split back into exactly argv; 948 "
              "environment cases (parent blocks of 0/1/3 entries x EXTEND/EMPTY x every list of 0..3 extra entries over 5 shapes, NULL vs empty list, invalid "
              "UTF-8 => clean failure) must give parent entries then extra entries, each NUL-terminated, one closing NUL; ASan proves the buffers are "
              "large enough. Outside the bound: longer strings (the property's 'longer ones at random' is sampling, a different family, not done).",
         note="Trusted base: gcc, ASan/UBSan, the stub Win32 layer (a strict UTF-8 -> UTF-16 converter, recording CreateProcessW) and the splitting oracle in "
              "/verif/winstub/h_c18.c. wchar_t is 4 bytes on this platform: each element holds one UTF-16 code unit. Real Windows is not involved."),
+    "C19": dict(
+        cat="model_checking", design="3/C19", engine="h_c19",
+        technique="exhaustive enumeration of option-field menus, container contents, wrapper methods and C return values through the unmodified reproc++ sources linked against a recording fake of the C API (ASan/UBSan/LSan)",
+        text="reproc++/src/reproc.cpp and the headers are compiled as they are; reproc_start & co. are a fake that records the options struct, argv and "
+             "env arrays it receives and returns a scripted value. Enumerated: every options field varied alone over its full menu (pointers NULL/non-NULL, "
+             "bools, all 8 redirect types x handle x file x path per stream, 4 stop actions x {INT_MIN,-2,-1,0,1,7,INT_MAX} per slot, deadline, input forms) on three "
+             "bases chosen so that any swap of two fields shows, bool/enum pairs, start / fork / options::clone of each; argument containers "
+             "(vector, list, array) and environment containers (vector of pairs, map) of 0..3 / 0..2 entries over a 9-string alphabet (empty, space, quote, "
+             "backslash, '=', non-UTF-8); every wrapper method x {INT_MIN+1, -EINVAL, -EPIPE, -ETIMEDOUT, -ENOMEM, -EWOULDBLOCK, -1, 0, 1, 137, INT_MAX} with "
+             "argument pass-through; enumerator and constant equality; one destroy per new.",
+        note="Trusted base: g++, the fake C layer and comparisons in /verif/cxx/h_c19.cpp. Integer fields are checked on boundary menus, not on all values."),
 }
 
 NOT_YET = "check not built yet (work in progress; see DESIGN.md section 7 for the build order)"
